@@ -1,5 +1,310 @@
-import Sio.Model.Client
+/-
+  C08 — Client state mirrors the server; disconnect reported once per namespace.
+
+  Model: Sio/Model/Client.lean (K7, follows /repo including the repair of F7, commit 9eb401e).
+  Spec:  Sio/Model/ClientSpec.lean — the server's view of the connection (`View`), the conformance
+         of the peer and the notifications the application must see (`specRun`).
+  Histories are lists of inputs of any length; `specRun strict View.down h = some (v, t)` says that
+  `h` is inside the property's quantifier, `v` is what the server has accepted and not yet ended
+  after `h`, `t` the notifications it requires.  Helper lemmas: Sio/Lemmas/Client*.lean.
+
+  Three regions are excluded by `specRun` because the unchanged code violates the property there
+  (known findings, DESIGN §6; the full statements and machine-checked witnesses are at the end):
+    F8   loss-inside-connect-window          transport lost before `connect()` has returned
+    F8b  disconnect-inside-connect-window    server DISCONNECT before `connect()` has returned
+    F9   root-refused-nowait-stale-namespaces   `/` refused for a `connect(wait=False)`
+-/
+import Sio.Lemmas.ClientSpec
+import Sio.Lemmas.ClientStep
 namespace Sio.C08
-open Sio.Client
-theorem placeholder_stub : True := trivial
+open Sio Sio.Client
+
+/-- "fully disconnected": nothing of a connection is left in the client -/
+def Clean (c : Cli) : Prop :=
+  c.connected = false ∧ c.namespaces = [] ∧ c.eio = .disconnected ∧ c.cbs = [] ∧ c.ctr = []
+  ∧ c.binbuf = none ∧ c.sid = none
+
+/-- **C08.connect_sends** — `connect()` on a disconnected client whose transport comes up (and stays
+    up during the call) invokes an auth callable exactly once and then hands over exactly one
+    CONNECT per requested namespace, in order, each carrying the auth payload (`auth or {}`);
+    nothing else it sends is a CONNECT packet. -/
+theorem connect_sends (cfg : Cfg) (c : Cli) (nss : List Ns) (auth : Auth) (wait : Bool) (es : Str)
+    (reacts : List (List Ev)) (hc : c.connected = false) (he : c.eio = .disconnected)
+    (hq : quiet reacts = true) :
+    connects (connect cfg c nss auth wait (.accept es) reacts).2
+      = (if auth.callable then [ConnOut.auth] else [])
+        ++ nss.map (fun n => ConnOut.pkt (some n) (some auth.real)) := by
+  have hl := connects_connectLoop cfg auth.real nss
+    { c with requested := nss, namespaces := [], eio := .connected, sid := some es } reacts hq hc rfl
+  rw [connect_accept cfg c nss auth wait es reacts hc he]
+  have hoa : connects (if auth.callable = true then [Out.authCall] else [])
+      = (if auth.callable then [ConnOut.auth] else []) := by
+    split <;> simp [connects_cons, connectOf]
+  split
+  · simp [hoa, hl.1, connects_apiDisconnect, connects_cons, connectOf]
+  · simp [hoa, hl.1, connects_cons, connectOf]
+
+/-- The state after a conformant history is related to the server's view (`R`, Sio/Lemmas/ClientSim). -/
+theorem related (cfg : Cfg) (strict : Bool) {h : List Input} {v : View} {t : List Note}
+    (hs : specRun strict View.down h = some (v, t)) :
+    ∃ q, R .live q (run cfg init h).1 v ∧ notes (run cfg init h).2 = t :=
+  sim_run cfg strict h (R_init []) hs
+
+/-- **C08.wait_all** (with `failed_connect_clean` at full strength, F7 repaired) — after any
+    conformant history that left the client disconnected, `connect(wait=True)` whose window is
+    conformant (`specLoop`: CONNECT or CONNECT_ERROR per requested namespace in any order, events
+    and acks in between)
+      * reports to the application exactly the acceptances and refusals of the server, in order
+        (`connect` once per accepted namespace, `connect_error` once per refusal),
+      * returns normally iff every requested namespace was accepted — then `namespaces` is exactly
+        the accepted map and `connected` is set,
+      * and otherwise raises `ConnectionError` and leaves the client fully disconnected. -/
+theorem wait_all (cfg : Cfg) {h : List Input} {v : View} {t : List Note}
+    (hs : specRun false View.down h = some (v, t)) (hup : v.up = false)
+    (nss : List Ns) (auth : Auth) (es : Str) (reacts : List (List Ev)) (hne : nss ≠ [])
+    {v1 : View} {t1 : List Note}
+    (hl : specLoop true { up := true, esid := some es, asked := nss } nss reacts = some (v1, t1)) :
+    let r := connect cfg (run cfg init h).1 nss auth true (.accept es) reacts
+    notes r.2 = t1
+    ∧ ((v1.asked = [] ∧ v1.ref = []) →
+        r.2.getLast? = some (.result .none) ∧ r.1.connected = true ∧ r.1.namespaces = v1.acc
+        ∧ r.1.eio = .connected)
+    ∧ (¬ (v1.asked = [] ∧ v1.ref = []) →
+        r.2.getLast? = some (.raised .connectionError) ∧ Clean r.1) := by
+  obtain ⟨q, hR, _⟩ := related cfg false hs
+  have hc : (run cfg init h).1.connected = false := by have := hR.conn; simp [hup] at this; exact this
+  have heio : (run cfg init h).1.eio = .disconnected := by have := hR.eio; simp [hup] at this; exact this
+  have hopen := R_window_open hR hup nss hne true es
+  obtain ⟨hR1, hn1⟩ := sim_loop cfg auth.real true nss hopen hl
+  have hdec := sameSet_decision hR1
+  have hoa : notes (if auth.callable = true then [Out.authCall] else []) = [] := by
+    split <;> simp
+  have he1 := hR1.eio_win
+  have hcc : (connectLoop cfg auth.real
+      { (run cfg init h).1 with requested := nss, namespaces := [], eio := .connected, sid := some es }
+      nss reacts).1.connected = false := by simpa using hR1.conn
+  intro r
+  have hr : r = connect cfg (run cfg init h).1 nss auth true (.accept es) reacts := rfl
+  rw [connect_accept cfg _ nss auth true es reacts hc heio, hdec] at hr
+  by_cases hall : v1.asked = [] ∧ v1.ref = []
+  · have hb : (v1.asked.isEmpty && v1.ref.isEmpty) = true := by simp [hall.1, hall.2]
+    simp only [hb, Bool.not_true, Bool.and_false, Bool.false_eq_true, if_false] at hr
+    refine ⟨by rw [hr]; simp [hoa, hn1], fun _ => ?_, fun hn => absurd hall hn⟩
+    rw [hr]
+    refine ⟨by simp, rfl, ?_, he1⟩
+    exact hR1.ns1 (by rw [hall.2]; simp)
+  · have hb : (v1.asked.isEmpty && v1.ref.isEmpty) = false := by
+      cases hq : (v1.asked.isEmpty && v1.ref.isEmpty) with
+      | false => rfl
+      | true =>
+        simp only [Bool.and_eq_true, List.isEmpty_iff] at hq
+        exact absurd hq hall
+    simp only [hb, Bool.not_false, Bool.and_self, if_true] at hr
+    refine ⟨?_, fun ha => absurd ha hall, fun _ => ?_⟩
+    · rw [hr]
+      simp [apiDisconnect, eioDisconnect, onEioDisconnect, he1, hcc, hoa, hn1, notes_flatMap_sendPkt]
+    · rw [hr]
+      refine ⟨by simp, ?_⟩
+      simp [Clean, apiDisconnect, eioDisconnect, onEioDisconnect, he1, hcc]
+
+/-- the refusal reaches the `connect_error` handler with the server's arguments
+    (`None` → none, a list → its items, anything else → one argument) -/
+theorem refusal_reported (cfg : Cfg) (c : Cli) (ns : Option Ns) (data : Option J) :
+    (handleError cfg c ns data).2
+      = (trigger cfg sConnectError (nsOr ns) (errArgs data)).1 := by
+  unfold handleError
+  simp only
+  split <;> rfl
+
+/-- **C08.mirror** (`_partial`: histories inside `specRun`, i.e. without F8 / F8b / F9) — after every
+    conformant history the client's namespace map *is* the map of namespaces the server has accepted
+    and not yet ended, with the sids the server assigned; `connected` is set exactly while the
+    transport of an established connection is up, which implies `eio.state == 'connected'`; and
+    from the moment every requested namespace has been accepted, `connected` holds iff a namespace
+    remains. -/
+theorem mirror_partial (cfg : Cfg) {h : List Input} {v : View} {t : List Note}
+    (hs : specRun false View.down h = some (v, t)) :
+    let c := (run cfg init h).1
+    c.namespaces = v.acc
+    ∧ c.connected = v.up
+    ∧ (c.connected = true → c.eio = .connected)
+    ∧ (v.asked = [] → v.ref = [] → (c.connected = true ↔ v.acc ≠ [])) := by
+  obtain ⟨q, hR, _⟩ := related cfg false hs
+  intro c
+  have hconn : c.connected = v.up := by have := hR.conn; simpa using this
+  refine ⟨hR.ns_live, hconn, ?_, ?_⟩
+  · intro hc
+    have hup : v.up = true := by rw [← hconn]; exact hc
+    have := hR.eio; simp [hup] at this; exact this
+  · intro ha hr
+    rw [hconn]
+    constructor
+    · intro hup
+      rcases hR.alive hup with h1 | h1 | h1
+      · exact absurd ha h1
+      · exact absurd hr h1
+      · exact h1
+    · intro hacc
+      cases hup : v.up with
+      | true => rfl
+      | false => have := (hR.down hup).1; rw [this] at hacc; exact absurd rfl hacc
+
+/-- **C08.bad_namespace** — `emit`, `send` and `call` on a namespace that is not in `namespaces` raise
+    `BadNamespaceError`, hand nothing to the transport and change nothing (any state) … -/
+theorem bad_namespace (cfg : Cfg) (c : Cli) (ev : Str) (d : Data) (ns : Option Ns) (cb : Option Cb)
+    (tok : Nat) (reacts : List Ev) (hn : hasNs c (nsOr ns) = false) :
+    step cfg c (.emit ev d ns cb reacts) = (c, [.raised .badNamespace])
+    ∧ step cfg c (.send d ns cb reacts) = (c, [.raised .badNamespace])
+    ∧ step cfg c (.call ev d ns tok reacts) = (c, [.raised .badNamespace]) := by
+  simp [step, emit, call, emitCore, hn]
+
+/-- … and after a conformant history "not in `namespaces`" is "not accepted by the server, or
+    ended": the three calls raise exactly on those namespaces. -/
+theorem bad_namespace_iff (cfg : Cfg) {h : List Input} {v : View} {t : List Note}
+    (hs : specRun false View.down h = some (v, t)) (n : Ns) :
+    hasNs (run cfg init h).1 n = hasKey v.acc n := by
+  obtain ⟨q, hR, _⟩ := related cfg false hs
+  rw [hasNs, hR.ns_live]
+
+/-- **C08.connect_handler_once**, one packet — a CONNECT for a namespace that is not yet connected adds
+    it (with the server's sid) and runs `_trigger_event('connect', ns)` exactly once; a CONNECT for
+    a namespace that is already connected does nothing at all. -/
+theorem connect_handler_once (cfg : Cfg) (c : Cli) (ns : Option Ns) (data : Option J) :
+    (hasNs c (nsOr ns) = true → handleConnect cfg c ns data = (c, []))
+    ∧ (hasNs c (nsOr ns) = false → ∀ s, sidOf c data = .ok s →
+        handleConnect cfg c ns data
+          = ({ c with namespaces := c.namespaces ++ [(nsOr ns, s)] },
+             [.trig sConnect (nsOr ns) (cfg.resolve (nsOr ns) sConnect [])])) := by
+  refine ⟨fun hn => by simp [handleConnect, hn], fun hn s hs => ?_⟩
+  unfold handleConnect trigger
+  simp only [hn, hs, Bool.false_eq_true, if_false]
+  cases cfg.resolve (nsOr ns) sConnect [] with
+  | none => rfl
+  | some r => rfl
+
+/-- **C08.connect_handler_once / disconnect_once**, histories — along every conformant history the
+    sequence of `connect`, `connect_error` and `disconnect` notifications the application sees
+    is exactly the sequence of acceptances, refusals and endings on the server's side: one
+    `connect` per accepted namespace, one `disconnect` per accepted namespace that ends —
+    whichever of server DISCONNECT (of one namespace or, one by one, of all), transport loss,
+    engine.io CLOSE or the client's `disconnect()` ends it, in any order — and no other. -/
+theorem notifications (cfg : Cfg) (strict : Bool) {h : List Input} {v : View} {t : List Note}
+    (hs : specRun strict View.down h = some (v, t)) :
+    notes (run cfg init h).2 = t := by
+  obtain ⟨q, _, hn⟩ := related cfg strict hs
+  exact hn
+
+/-- **C08.disconnect_once** — in every history in which each `connect(wait=True)` was fully accepted
+    (`strict`), for every namespace the number of `connect` notifications equals the number of
+    `disconnect` notifications plus one if the namespace is still connected: every namespace that
+    was connected gets exactly one disconnect notification when it ends, never two, never none. -/
+theorem disconnect_once (cfg : Cfg) {h : List Input} {v : View} {t : List Note}
+    (hs : specRun true View.down h = some (v, t)) (n : Ns) :
+    (notes (run cfg init h).2).count (.accepted n)
+      = (notes (run cfg init h).2).count (.ended n)
+        + (if hasNs (run cfg init h).1 n then 1 else 0) := by
+  obtain ⟨q, hR, hn⟩ := related cfg true hs
+  have hb := (spec_run_balance h VInv_down hs).2 n
+  rw [hn, hasNs, hR.ns_live]
+  simp only [cntA, cntE, ind] at hb
+  have h0 : ind View.down.acc n = 0 := ind_down n
+  simp only [ind] at h0
+  omega
+
+/-- **C08.reset** — once the connection is over (however it ended) nothing of it is left: no
+    namespace, no session id, no pending callback, no id counter, no half-received binary packet;
+    in particular none of them survives into the next connection. -/
+theorem reset (cfg : Cfg) {h : List Input} {v : View} {t : List Note}
+    (hs : specRun false View.down h = some (v, t)) (hup : v.up = false) :
+    Clean (run cfg init h).1 := by
+  obtain ⟨q, hR, _⟩ := related cfg false hs
+  have hd := hR.down hup
+  have hconn : (run cfg init h).1.connected = false := by have := hR.conn; simpa [hup] using this
+  have heio : (run cfg init h).1.eio = .disconnected := by have := hR.eio; simpa [hup] using this
+  refine ⟨hconn, ?_, heio, hd.2.1, hd.2.2, ?_, ?_⟩
+  · rw [hR.ns_live, hd.1]; rfl
+  · rw [hR.bin, hd.1]; rfl
+  · rw [hR.sid, hd.1]; rfl
+
+/-! ### the excluded regions: full statements and negation witnesses
+
+  The *full* statement of `mirror` (and of `reset`, `disconnect_once`) is the one above with the
+  three exclusions removed from `specEv` — i.e. with `.lost`/`.close`/DISCONNECT treated inside the
+  connect window exactly as outside it (the connection, resp. the namespace, ends and the
+  application is told), and CONNECT_ERROR for `/` treated like any other refusal:
+
+      ∀ h, specRunFull View.down h = some (v, t) →
+        (run cfg init h).1.namespaces = v.acc ∧ ((run cfg init h).1.connected = true →
+        (run cfg init h).1.eio = .connected) ∧ notes (run cfg init h).2 = t ∧ (v.up = false → Clean …)
+
+  It is FALSE for the unchanged code.  The three witnesses below are conformant servers doing
+  something the full statement allows; the model (which follows the code) ends up in a state the
+  statement forbids; `specRun` rejects exactly these histories (`isNone`). -/
+
+def cfg0 : Cfg := ⟨fun _ _ _ => none, fun _ _ => .none⟩
+def nsA : Ns := ['/', 'a']
+def accept (n : Ns) (s : Str) : Ev :=
+  .msg (.str []) (.ok (⟨CONNECT, some n, none, some (.obj [(sSid, .str s)])⟩, 0))
+def refuse (n : Ns) : Ev :=
+  .msg (.str []) (.ok (⟨CONNECT_ERROR, some n, none, some (.str ['n', 'o'])⟩, 0))
+def srvDisconnect (n : Ns) : Ev := .msg (.str []) (.ok (⟨DISCONNECT, some n, none, none⟩, 0))
+
+/-- F8: CONNECT then loss of the transport, both before `connect()` returns -/
+def hF8 : List Input := [.connect [root] ⟨false, none⟩ true (.accept ['E']) [[accept root ['s'], .lost]]]
+
+/-- `connected` on a dead transport, the namespace still listed, no disconnect notification — and
+    the client is wedged: `connect()` says "Already connected", `disconnect()` changes nothing. -/
+theorem F8_witness :
+    (run cfg0 init hF8).1.connected = true ∧ (run cfg0 init hF8).1.eio = .disconnected
+    ∧ hasNs (run cfg0 init hF8).1 root = true
+    ∧ (notes (run cfg0 init hF8).2).count (.ended root) = 0
+    ∧ (run cfg0 init (hF8 ++ [.disconnect])).1.connected = true
+    ∧ (specRun false View.down hF8).isNone = true := by decide
+
+/-- F8b: CONNECT immediately followed by DISCONNECT of the same namespace, before `connect()` returns -/
+def hF8b : List Input :=
+  [.connect [root] ⟨false, none⟩ true (.accept ['E']) [[accept root ['s'], srvDisconnect root]]]
+
+/-- the server has ended the namespace; the client lists it, is `connected`, told nobody -/
+theorem F8b_witness :
+    (run cfg0 init hF8b).1.connected = true ∧ hasNs (run cfg0 init hF8b).1 root = true
+    ∧ (notes (run cfg0 init hF8b).2).count (.ended root) = 0
+    ∧ (specRun false View.down hF8b).isNone = true := by decide
+
+/-- F9: `connect(['/', '/a'], wait=False)`, `/` refused, `/a` accepted, then the transport is lost -/
+def hF9 : List Input :=
+  [.connect [root, nsA] ⟨false, none⟩ false (.accept ['E']) [],
+   .ev (refuse root), .ev (accept nsA ['s']), .ev .lost]
+
+/-- the connection is over, `/a` is still listed and was never told about its end -/
+theorem F9_witness :
+    (run cfg0 init hF9).1.eio = .disconnected ∧ (run cfg0 init hF9).1.connected = false
+    ∧ hasNs (run cfg0 init hF9).1 nsA = true
+    ∧ (notes (run cfg0 init hF9).2).count (.accepted nsA) = 1
+    ∧ (notes (run cfg0 init hF9).2).count (.ended nsA) = 0
+    ∧ (specRun false View.down hF9).isNone = true := by decide
+
+/-! ### non-vacuity: conformant histories exist, with several namespaces, every kind of ending,
+    partial refusal and reconnection -/
+
+def nsB : Ns := ['/', 'b']
+
+/-- connect `/a`,`/b` (waiting), the server ends `/a`, the transport is lost, reconnect `/` without
+    waiting, accepted later, the client disconnects; then a refused connect -/
+def hOk : List Input :=
+  [.connect [nsA, nsB] ⟨true, some (.obj [])⟩ true (.accept ['E']) [[], [accept nsA ['1'], accept nsB ['2']]],
+   .ev (srvDisconnect nsA), .emit ['x'] .none (some nsB) (some ⟨1, .fn⟩) [], .ev .lost,
+   .connect [root] ⟨false, none⟩ false (.accept ['F']) [], .ev (accept root ['3']), .disconnect,
+   .connect [nsA, nsB] ⟨false, none⟩ true (.accept ['G']) [[accept nsA ['4']], [refuse nsB]]]
+
+example : (specRun false View.down hOk).isSome = true := by decide
+example : (specRun true View.down (hOk.take 7)).isSome = true := by decide
+example : (notes (run cfg0 init hOk).2).length = 8 := by decide
+/-- hypotheses of `wait_all`: a window with an acceptance and a refusal -/
+example : (specLoop true { up := true, esid := some ['G'], asked := [nsA, nsB] } [nsA, nsB]
+    [[accept nsA ['4']], [refuse nsB]]).isSome = true := by decide
+/-- hypotheses of `connect_sends` -/
+example : quiet [[], [accept nsA ['1'], accept nsB ['2']]] = true ∧ init.connected = false
+    ∧ init.eio = .disconnected := by decide
+
 end Sio.C08
